@@ -63,6 +63,10 @@ package syncx
 //@   requires r != nil
 //@   ensures [already-cleaned] old(r.cleaned) ==> calls(clean) == 0 && r.ref == old(r.ref) && r.cleaned
 //@   ensures [last-use-cleans] !old(r.cleaned) ==> r.ref == old(r.ref) - 1 && (calls(clean) == 1) == (r.ref == 0) && r.cleaned == (r.ref == 0)
+// a clean callback that panics has still been the one clean: the resource is already marked cleaned, so it is
+// refused from then on and never cleaned again; the lock is released
+//@   may-panic clean
+//@   panic-ensures [cleaned-even-if-callback-panics] r.cleaned && r.ref == 0 && calls(clean) == 1 && calls(on("unlock", r.lock)) == 1
 
 // ---- ResourceManager: the body that runs inside the single flight creates at most once and only when the key
 // is still absent; a failed create stores nothing; Close closes every resource once ----
@@ -83,19 +87,19 @@ package syncx
 // ---- SingleFlight (sequential part): the leader runs fn once, publishes its result and removes the entry (also
 // when fn panics); a caller that finds an entry waits for it and takes the leader's result without running fn ----
 //@ func (*flightGroup).createCall
-//@   prop C18
+//@   prop C18, C06, C17
 //@   requires g != nil && g.calls != nil
 //@   ensures [follower] old(has(g.calls, key)) ==> done && c == old(g.calls[key]) && calls("wg.Wait") == 1 && before(on("unlock", g.lock), "wg.Wait")
 //@   ensures [leader] !old(has(g.calls, key)) ==> !done && fresh(c) && has(g.calls, key) && g.calls[key] == c && calls("wg.Add") == 1 && before("wg.Add", on("unlock", g.lock))
 //@ func (*flightGroup).makeCall
-//@   prop C18
+//@   prop C18, C06, C17
 //@   may-panic fn
 //@   requires g != nil && g.calls != nil && c != nil
 //@   ensures [runs-once] calls(fn) == 1 && c.val == ret(fn, 0) && c.err == ret(fn, 1)
 //@   ensures [entry-removed-then-released] !has(g.calls, key) && calls("wg.Done") == 1 && before(on("unlock", g.lock), "wg.Done")
 //@   panic-ensures [released-on-panic] !has(g.calls, key) && calls("wg.Done") == 1
 //@ func (*flightGroup).Do
-//@   prop C18
+//@   prop C18, C06, C17
 //@   opaque createCall, makeCall
 //@   requires g != nil
 //@   ensures [shared] ret(createCall, 1) ==> calls(makeCall) == 0 && result0 == ret(createCall, 0).val && result1 == ret(createCall, 0).err
